@@ -310,3 +310,8 @@ func FuzzSentence(f *testing.F) {
 		}
 	})
 }
+
+// FuzzGenSentence: the structured generator driven by Go's coverage-guided fuzzer (thorough tier).
+func FuzzGenSentence(f *testing.F) {
+	h.FuzzSub(f, h.Sub[sentCase]{Prop: "C03", Name: "sentence-decode", Gen: genSentence, Check: checkSentence})
+}
